@@ -22,7 +22,11 @@ RULE = ('One case = a generated chart (sends with and without delay, notify) + i
         'repeated with a property statechart that becomes final on its k-th meta-event: that very execute_once must raise '
         'PropertyStatechartError and the shared log must end with meta-event k. (3) lock-step run with and without two '
         'never-final property statecharts.  Non-trivial = distinct (chart, k) pairs of (2) plus runs whose stream '
-        'contained all 7 documented kinds and a notify.')
+        'contained all 7 documented kinds and a notify.  Also: (4) a listener / property statechart attached while meta-event j of a step is '
+        'delivered receives everything that happens afterwards; every documented attribute is read as event.<name> (None values too); sent '
+        'events carry an object of the context that monitors must get uncopied; two equal-comparing listener objects are both served; '
+        'nothing runs in a step before step started was delivered; a deep copy of a monitored interpreter keeps its monitors in time; a '
+        'fifth of the cases use a clock that grows at every reading.')
 ASSUMPTIONS = ["the undocumented, deprecated 'delayed event sent' meta-event is filtered out before comparison",
                'the listener is attached before the property statechart so that it records meta-event k before the property fails']
 REQUIRED_COUNTERS = ['identity_of_parameters_checked', 'listeners_attached_mid_step', 'attribute_reads_checked', 'cases_with_ticking_clock', 'monitored_copies_checked', 'sent_predicate_reads', 'deprecated_bind_form', 'stream_steps_checked', 'meta_events_checked', 'failfast_runs', 'noninterference_steps',
